@@ -159,6 +159,13 @@ func Worker(t *testing.T) {
 		scName = v
 	}
 	sc := scenarios[scName]
+	if sc == nil && env.Mode == "replay" {
+		// the replay file names its scenario
+		for _, s := range scenarios {
+			sc = s
+			break
+		}
+	}
 	if sc == nil {
 		t.Fatalf("netsim: no scenario for property %q", env.Prop)
 	}
